@@ -5,54 +5,35 @@ use crate::execution::operators::OperatorError;
 use crate::execution::pipeline::{ChunkSizeHint, PushOperator, Sink};
 use crate::execution::selection::SelectionVector;
 use crate::execution::vector::ValueVector;
-use grafeo_common::types::Value;
+use grafeo_common::types::{HashableValue, Value};
 use std::collections::HashSet;
 
-/// Hash key for distinct tracking.
+/// Key for distinct tracking: the key values themselves, so that two rows are duplicates
+/// exactly when their key values are equal (a vector of per-value hashes identifies values
+/// with equal hashes, e.g. NULL with `false`, and every list with every map).
 #[derive(Debug, Clone, PartialEq, Eq, Hash)]
-struct RowKey(Vec<u64>);
+struct RowKey(Vec<HashableValue>);
 
 impl RowKey {
     fn from_row(chunk: &DataChunk, row: usize, columns: &[usize]) -> Self {
-        let hashes: Vec<u64> = columns
+        let values: Vec<HashableValue> = columns
             .iter()
             .map(|&col| {
-                chunk
-                    .column(col)
-                    .and_then(|c| c.get_value(row))
-                    .map_or(0, |v| hash_value(&v))
+                HashableValue::new(
+                    chunk
+                        .column(col)
+                        .and_then(|c| c.get_value(row))
+                        .unwrap_or(Value::Null),
+                )
             })
             .collect();
-        Self(hashes)
+        Self(values)
     }
 
     fn from_all_columns(chunk: &DataChunk, row: usize) -> Self {
-        let hashes: Vec<u64> = (0..chunk.column_count())
-            .map(|col| {
-                chunk
-                    .column(col)
-                    .and_then(|c| c.get_value(row))
-                    .map_or(0, |v| hash_value(&v))
-            })
-            .collect();
-        Self(hashes)
+        let columns: Vec<usize> = (0..chunk.column_count()).collect();
+        Self::from_row(chunk, row, &columns)
     }
-}
-
-fn hash_value(value: &Value) -> u64 {
-    use std::collections::hash_map::DefaultHasher;
-    use std::hash::{Hash, Hasher};
-
-    let mut hasher = DefaultHasher::new();
-    match value {
-        Value::Null => 0u8.hash(&mut hasher),
-        Value::Bool(b) => b.hash(&mut hasher),
-        Value::Int64(i) => i.hash(&mut hasher),
-        Value::Float64(f) => f.to_bits().hash(&mut hasher),
-        Value::String(s) => s.hash(&mut hasher),
-        _ => 0u8.hash(&mut hasher),
-    }
-    hasher.finish()
 }
 
 /// Push-based distinct operator.
